@@ -9,9 +9,11 @@
    struct.pack / struct.unpack are Codec.struct_pack / struct_unpack (validated against CPython by the c15_struct_* commands);
    BYTES_TO_BITS is the table regenerated into Gen/codec_gen.v (GenOk_C15.gen_bytes_to_bits_ok ties it to byte_bits).
    Hypotheses: 0 <= word_size, 0 <= num_words for the generic int_to_bits and for explicit sizes handed to ipv6.int_to_words
-   (as in C15_source_tie); none for the module functions.  Not tied here: ipv6.int_to_arpa (goes through int_to_str: C01),
-   bytes_to_bits.  Nothing but the statement closed by `exact`, followed by Print Assumptions. *)
+   (as in C15_source_tie); none for the module functions.  bytes_to_bits() (no parameters: a closed term) evaluates to the
+   regenerated table and to the table of Codec.byte_bits.  ipv6.int_to_arpa goes through int_to_str and is stated in
+   Props/C01_src.v (C01_source_tie_text).  Nothing but the statement closed by `exact`, followed by Print Assumptions. *)
 From Coq Require Import String.
+From NV Require Import Base.PyStr.
 From NV Require Import Base.Tac Base.PyVal Model.Ip Model.Codec Model.SrcPrelude Model.SrcPreludeText Gen.pysrc_strategy_bits_gen
   Gen.pysrc_ipv4_gen Gen.pysrc_ipv6_gen Proofs.GenOk_Src_C15_ip.
 Import ListNotations.
@@ -20,6 +22,8 @@ Open Scope Z_scope.
 
 Theorem C15_source_tie_ip :
   (forall v ws nw sep, 0 <= ws -> 0 <= nw -> src_strategy_int_to_bits v ws nw sep = int_to_bits v ws nw sep) /\
+  (src_strategy_bytes_to_bits = Ok py_BYTES_TO_BITS /\
+   src_strategy_bytes_to_bits = Ok (map (fun n => str_of (byte_bits (Z.of_nat n))) (seq 0 256))) /\
   (find_dialect "ipv4"%string ""%string = Some row4 /\ find_dialect "ipv6"%string ""%string = Some row6) /\
   (* ipv4.py *)
   ((forall words, src_ipv4_valid_words words = Ok (valid_words words (d_ws row4) (d_nw row4))) /\
